@@ -1,7 +1,7 @@
 (** * C17 — options mean what the table says; macro variants are option shorthands *)
 From Coq Require Import List String Ascii Bool Permutation.
 From Entrait Require Import Tok Syn Opts Split FnParams Convert Codegen Expand.
-From Entrait.Proofs Require Import Base PC17.
+From Entrait.Proofs Require Import Base PC17 PC17b.
 Import ListNotations.
 Local Open Scope list_scope.
 
@@ -45,6 +45,32 @@ Theorem c17_order_independent_general : forall S (set : S -> eopt -> result S),
   forall es es', Permutation es es' -> NoDup (map key es) -> forall st, fold_set set es st = fold_set set es' st.
 Proof. exact @fold_set_perm. Qed.
 Print Assumptions c17_order_independent_general.
+
+(** Trait targets: an attribute consisting of options only ([opt, opt, ...], any documented spelling), and one
+    with a delegation-target trait name in front ([vis Name, opt, ...], the name not being an option keyword),
+    parse to the left-to-right accumulation of the options; hence any permutation of an option list with
+    distinct keys — in particular one that starts with a bare option — parses identically. *)
+Theorem c17_trait_attr : forall es tss,
+  Forall2 spells es tss -> es <> [] ->
+  parse_trait_attr (join [comma] tss) =
+  (let* od := fold_set set_trait_opt es (no_opts, None) in Ok (mkTraitAttr None (fst od) (snd od))).
+Proof. exact parse_trait_attr_options. Qed.
+Print Assumptions c17_trait_attr.
+
+Theorem c17_trait_attr_named : forall v name es tss,
+  vis_toks_ok v -> accept_as_ident name = true -> option_keyword name = false ->
+  Forall2 spells es tss -> es <> [] ->
+  parse_trait_attr (v ++ TId name :: comma :: join [comma] tss) =
+  (let* od := fold_set set_trait_opt es (no_opts, None) in Ok (mkTraitAttr (Some name) (fst od) (snd od))).
+Proof. exact parse_trait_attr_named. Qed.
+Print Assumptions c17_trait_attr_named.
+
+Theorem c17_trait_order_independent : forall es es' tss tss',
+  Forall2 spells es tss -> Forall2 spells es' tss' -> es <> [] ->
+  Permutation es es' -> NoDup (map key es) ->
+  parse_trait_attr (join [comma] tss) = parse_trait_attr (join [comma] tss').
+Proof. exact trait_options_order_independent. Qed.
+Print Assumptions c17_trait_order_independent.
 
 (** Accepted option sets per target: fn/mod everything but [delegate_by]; trait everything but
     [no_deps] and [export]; impl only [debug]; anything else is "Unsupported option". *)
